@@ -23,7 +23,7 @@ def tag(i, c, t, fam=0):
 def untag(v):
     """(instance, column, time) encoded in a tagged value"""
     v = float(v)
-    if v != v or v < 0:
+    if v != v or v < 0 or (v % 1.0) < 0.5:  # fill values 0 / -1 / NaN carry no tag
         return None
     return int(v // 100), int((v % 100) // 10), int(v % 10)
 
